@@ -10,6 +10,8 @@ from ..common import VERIF, Result
 from ..solvers import MODE, keys, lean_case
 from ..sr import run_algo, solution_key
 
+from .. import sr as _sr  # noqa: E402
+
 ID = "C09"
 RULE = (
     "random binary inputs (quick: up to 7 object leaves / 5 species / 3 families; thorough: up to 10 / 8 / 4) with "
@@ -195,10 +197,13 @@ def run_named(case, algo, kw, fidx):
 
     inp = build_input(case, force_plain=(algo in PLAIN), **kw)
     try:
-        with contextlib.redirect_stderr(io.StringIO()):
+        with _sr.watchdog(), contextlib.redirect_stderr(io.StringIO()):
             outs = list(algorithms()[algo](inp, RetentionPolicy.ALL))
         costs = sorted({enc_cost(o.cost()) for o in outs}, key=str)
         sols = sorted((canon_solution(o, fidx=fidx) for o in outs), key=solution_key)
+    except _sr.SolverTimeout:
+        _sr.TIMED_OUT.append((algo, 'all'))
+        return {"err": "Timeout"}
     except Exception as e:  # noqa
         return {"err": type(e).__name__}
     return {"cost": costs[0] if len(costs) == 1 else (None if not costs else costs), "sols": sols}
@@ -219,10 +224,14 @@ def run_same_object_twice(case, algo):
     outs = []
     for _ in range(2):
         try:
-            with contextlib.redirect_stderr(io.StringIO()):
+            with _sr.watchdog(), contextlib.redirect_stderr(io.StringIO()):
                 rs = list(algorithms()[algo](inp, RetentionPolicy.ALL))
             costs = sorted({enc_cost(o.cost()) for o in rs}, key=str)
             sols = sorted((canon_solution(o) for o in rs), key=solution_key)
+        except _sr.SolverTimeout:
+            _sr.TIMED_OUT.append((algo, "all"))
+            outs.append({"err": "Timeout"})
+            continue
         except Exception as e:  # noqa
             outs.append({"err": type(e).__name__})
             continue
@@ -249,10 +258,14 @@ def run_inplace_costs(case, other_costs, algo, policy="all"):
         inp.costs.clear()
         inp.costs.update(costs)
         try:
-            with contextlib.redirect_stderr(io.StringIO()):
+            with _sr.watchdog(), contextlib.redirect_stderr(io.StringIO()):
                 rs = list(algorithms()[algo](inp, getattr(RetentionPolicy, policy.upper())))
             cs = sorted({enc_cost(o.cost()) for o in rs}, key=str)
             sols = sorted((canon_solution(o) for o in rs), key=solution_key)
+        except _sr.SolverTimeout:
+            _sr.TIMED_OUT.append((algo, "all"))
+            outs.append({"err": "Timeout"})
+            continue
         except Exception as e:  # noqa
             outs.append({"err": type(e).__name__})
             continue
@@ -455,6 +468,10 @@ def run_cases(ctx, res, cases):
             reqs.append({"op": "solve", "algo": a, **lean_case(c)})
     outs = iter(ctx.driver.parallel(reqs))
     for c in cases:
+        if _sr.TIMED_OUT:
+            res.notes.append("a solver call did not return within the watchdog (sr.SOLVER_TIMEOUT): the remaining cases "
+                             "were not run; C01-C03 report the failure itself")
+            break
         model_out = {a: next(outs) for a in algos_for(c)}
         check_case(ctx, res, c, model_out)
 
@@ -505,6 +522,8 @@ def run(ctx, res):
     # determinism across processes / hash seeds: the set-iteration-sensitive inputs first (sibling-inherit cases,
     # unordered solvers), a small sample in the quick tier, more in the thorough one
     order = sorted(range(len(cases)), key=lambda i: (cases[i].get("only") != "unordered", i))
+    if _sr.TIMED_OUT:
+        return
     fresh_process(ctx, res, [cases[i] for i in order[: (80 if ctx.thorough else 24)]])
 
 
